@@ -16,6 +16,8 @@ Definition fl_frac_lt (k n xff : Z) : bool :=
   match b32_compare (b32_div mode_NE (b32_of_int k) (b32_of_int n)) (b32_of_bits xff) with
   | Some Lt => true | _ => false end.
 
+Definition fl_sub (a b : Z) : Z := bits_of_b64 (b64_minus mode_NE (b64_of_bits a) (b64_of_bits b)).
+
 Definition flocq_fops : fops := mkFops 0 fl_add fl_div_len fl_lt fl_frac_lt.
 
 (** float64 -> float32 conversion (round to nearest even), as Go's float32(f) *)
